@@ -121,6 +121,9 @@ type Rec12 struct {
 // long-lived notation instance, which must behave exactly like the fresh one
 // whatever it parsed before.
 func ParseTokens(toks []string, r *rand.Rand, shared func(string) any) Rec12 {
+	for i := range toks {
+		toks[i] = Expand(toks[i])
+	}
 	var text, pieces = Render(toks, r)
 	var out = Parse(text, 5*time.Second)
 	if shared != nil && out.Status != "timeout" {
